@@ -82,7 +82,10 @@ def cpython_inlining_bug_shape(tree):
         for t in node[2]:
             if t[0] != "comp" or t[1] not in ("target", "target_tuple"):
                 continue
-            captured = any(sub is not t and sub[1] != "none" for sub, _ in scope.walk(t))
+            # captured by a LAMBDA below the comprehension (comprehensions nested in it are inlined
+            # into the same frame and behave in CPython: calibrated on 3.11 / 3.12 / 3.13)
+            captured = any(sub is not t and sub[0] != "comp" and any(s2[1] != "none" for s2, _ in scope.walk(sub))
+                           for sub, _ in scope.walk(t))
             if captured and (node[1] != "none" or any(
                     c is not t and any(sub[1] != "none" for sub, _ in scope.walk(c)) for c in node[2])):
                 return True
